@@ -16,7 +16,7 @@ PROP = dict(
          "1500 (quick) / 40000 (thorough) seeded random arm lists; each program is checked by the real checker through "
          "check_lsp / compile_bytecode; compared: sorted witness list; spec oracle: brute force over every value of the "
          "finite representative domain (accepted => every value matched; reported => some value unmatched and every "
-         "listed witness covers an unmatched value); placement dimension (D70): case i stands at one of 17 syntactic placements in rotation (let initialiser, arm body and scrutinee of another match, function / lambda / task / block / if / else / while / for body, call argument, array / tuple / struct literal element, index of an assignment target, struct-field default); every third case is also checked as a let initialiser and both verdicts must be equal; two fixed matches are checked at all 17 placements; run-time half: 150 (quick) / 4000 (thorough) accepted arm lists with two or more sibling or-patterns in different components (tuple / struct components, variant fields) are compiled and run on every value of the scrutinee type (up to 12 / 64, mixed-combination values first); the arm taken is compared with the model's first match (`pc first`) and with the Rust reference; coverage-guided additions: a match with NO arms on every scrutinee type; a struct without fields, a payload of it, a generic enum with named fields (En9<T> at bool), single-variant enums; 260 (quick) / 6000 let / annotated let / var / for / let-in-function destructuring patterns with variant, named-variant, literal and or sub-patterns, accepted iff the one-arm check of the model (pm let, checkLet) accepts and iff brute force finds them irrefutable; 11 fixed programs over columns outside the type language of the model (array, function values, generic struct / enum with function-typed fields, nested option) with their expected verdict (Rust-side oracle only); hard regression programs for D96 and D97; non-trivial = non-exhaustive verdict or an or-pattern in an arm",
+         "listed witness covers an unmatched value); placement dimension (D70): case i stands at one of 17 syntactic placements in rotation (let initialiser, arm body and scrutinee of another match, function / lambda / task / block / if / else / while / for body, call argument, array / tuple / struct literal element, index of an assignment target, struct-field default); every third case is also checked as a let initialiser and both verdicts must be equal; two fixed matches are checked at all 17 placements; run-time half: 150 (quick) / 4000 (thorough) accepted arm lists with two or more sibling or-patterns in different components (tuple / struct components, variant fields) are compiled and run on every value of the scrutinee type (up to 12 / 64, mixed-combination values first); the arm taken is compared with the model's first match (`pc first`) and with the Rust reference; coverage-guided additions: a match with NO arms on every scrutinee type; a struct without fields, a payload of it, a generic enum with named fields (En9<T> at bool), single-variant enums; 260 (quick) / 6000 let / annotated let / var / for / let-in-function destructuring patterns with variant, named-variant, literal and or sub-patterns, accepted iff the one-arm check of the model (pm let, checkLet) accepts and iff brute force finds them irrefutable; 17 fixed programs over columns outside the type language of the model (array, function values, generic struct / enum with function-typed fields, nested option, and generic types whose payload nests the type parameter inside option / a user generic / a tuple inside option / a recursive reference, instantiated at bool and at a small enum, arms enumerating the constructors at that depth) with their expected verdict (Rust-side oracle only); hard regression programs for D96 and D97; non-trivial = non-exhaustive verdict or an or-pattern in an arm",
     nontrivial=lambda req, imp: (imp != "w=" and not imp.startswith("arm=0")) or " or " in req,
     trusted_base=COMMON_TB + [
         "type inference delivers arms of the scrutinee's type (Abra.PatMatrix.patTyped) before the exhaustiveness pass runs; solution_of_node types are taken from the harness' own type of each sub-pattern",
